@@ -3,7 +3,7 @@ CONSTANTS
   NI = 2
   Versions <- Versions2
   KindNames = {"nested", "flat"}
-  MaxBatches = 3
+  MaxBatches = 2
   MaxMerges = 1
   PairMerges = FALSE
   KeepHist = TRUE
